@@ -867,6 +867,43 @@ theorem runEdge_inner_valid (c : Config α) (source tgt : Nat) (sched : List Nat
   subst htree
   exact hv1 v b hb
 
+/-- the origin and destination elements cost nothing: the summed cost of the wrapped route is the
+summed cost of the inner route -/
+theorem wrap_cost (c : Config α) (source tgt : Nat) (e1 e2 : EdgeRec α) (st : List α)
+    (inner : List (Branch α)) :
+    ((originBranch c source e1 :: inner ++ [destBranch tgt e2 st]).map
+      (fun b => b.access + b.traversal)).sum = (inner.map (fun b => b.access + b.traversal)).sum := by
+  simp only [List.cons_append, List.map_cons, List.map_append, List.map_nil, List.sum_cons,
+    List.sum_append, List.sum_nil, originBranch, destBranch, zero_eq]
+  ring
+
+/-- **route optimality through the wrapper** (non-adjacent case, either direction): when the
+configuration's instance is in the setting `Uniform` with a heuristic admissible for the inner
+target `e2.src`, the summed cost of the returned edge-oriented route is the least cost of a valid
+walk from the origin edge's head to the destination edge's tail, attained by its inner part -/
+theorem runEdge_route_optimal (c : Config α) {ok : Nat → Bool} {cst hv : Nat → α}
+    (U : Uniform c.inst ok cst hv) (source tgt : Nat) (sched : List Nat) (r : AlgResult α)
+    (e1 e2 : EdgeRec α) (h1 : c.edges[source]? = some e1) (h2 : c.edges[tgt]? = some e2)
+    (hne : source ≠ tgt) (hnadj : e1.dst ≠ e2.src)
+    (hadm : Admissible c.inst ok cst hv e2.src)
+    (h : c.runEdge source (some tgt) sched = .ok r) :
+    ∃ (route inner : List (Branch α)) (last : Branch α), r.routes = [route] ∧
+      route = originBranch c source e1 :: inner ++ [destBranch tgt e2 last.state] ∧
+      Walk c.inst ok e1.dst (inner.map (·.edge)) e2.src ∧
+      (route.map (fun b => b.access + b.traversal)).sum = cost cst (inner.map (·.edge)) ∧
+      ∀ es, Walk c.inst ok e1.dst es e2.src →
+        (route.map (fun b => b.access + b.traversal)).sum ≤ cost cst es := by
+  obtain ⟨res, inner, last, hres, hinner, _, _, _, hroutes⟩ :=
+    runEdge_nonadjacent c source tgt sched r e1 e2 h1 h2 hne hnadj h
+  obtain ⟨inner', d, hinner', _, hw, hsum, _, _, hmin⟩ :=
+    route_optimal U (fun h => hnadj h.symm) hadm hres
+  rw [hinner] at hinner'
+  cases hinner'
+  refine ⟨_, inner, last, hroutes, rfl, hw, ?_, ?_⟩
+  · rw [wrap_cost]; exact hsum
+  · intro es hes
+    rw [wrap_cost]; exact hmin es hes
+
 /-- a successful `run_a_star` towards a target other than the source extends to a successful
 `run_vertex_oriented` with the same final state (the backtrack cannot fail) -/
 theorem runVertexOriented_of_runAStar {I : Inst α} (hI : WF I) {source t : Nat} (hts : t ≠ source)
@@ -1066,6 +1103,32 @@ example : ∃ r tree, exConfig.runEdge 4 none [1, 2, 3] = .ok r ∧ r.trees = [t
 in either orientation.  (`SearchApp::run_edge_oriented` always passes `Direction::Forward`.) -/
 example : routeEdgesOf ({ exConfig with reverse := true }.runEdge 0 (some 2) [1, 3, 0, 2]) =
     some [[0, 4, 2, 2]] := by
+  decide +kernel
+
+/-- the frontier model is never asked about the destination (or origin) edge: with edge 2 cut
+(`valid 2 = .ok false`) the wrapper still returns the route `[0, 1, 2]` ending with edge 2.  So A1
+(`route_edges_ok`) is a statement about the *inner* elements only (`runEdge_inner_valid`). -/
+example :
+    ({ exConfig with frontier := [.edgeCut [2]] } : Config ℚ).inst.valid 2 [0] (some 1) = .ok false ∧
+    routeEdgesOf (({ exConfig with frontier := [.edgeCut [2]] } : Config ℚ).runEdge 0 (some 2) [1, 2])
+      = some [[0, 1, 2]] := by
+  decide +kernel
+
+/-- nor about the turn at a seam: the inner search starts without previous edge, so with the turn
+(0, 1) restricted (`valid 1 _ (some 0) = .ok false`) the wrapper still returns `[0, 1, 2]`, which
+takes edge 1 right after edge 0 -/
+example :
+    ({ exConfig with frontier := [.turnRestriction [(0, 1)]] } : Config ℚ).inst.valid 1 [0] (some 0)
+      = .ok false ∧
+    routeEdgesOf (({ exConfig with frontier := [.turnRestriction [(0, 1)]] } : Config ℚ).runEdge 0
+      (some 2) [1, 2]) = some [[0, 1, 2]] := by
+  decide +kernel
+
+/-- the same in the adjacent case: origin edge 0, destination edge 1, turn (0, 1) restricted, route
+`[0, 1]` -/
+example :
+    routeEdgesOf (({ exConfig with frontier := [.turnRestriction [(0, 1)]] } : Config ℚ).runEdge 0
+      (some 1) []) = some [[0, 1]] := by
   decide +kernel
 
 end Example
